@@ -40,6 +40,11 @@ def cq(x):
     return '(%d # %d)%%Q' % (f.numerator, f.denominator)
 
 
+def fq(x):
+    """Exact rational value of a float / int."""
+    return Fraction(x)
+
+
 def cbool(b):
     return 'true' if b else 'false'
 
@@ -183,14 +188,40 @@ def sh(cmd, timeout=None, cwd=None, env=None):
         return 124, (out or '') + '\n[timeout]'
 
 
+def write_coqproject():
+    """_CoqProject lists every .v under Base/ Model/ Proofs/ Props/ Gen/ (not Gen/cases)."""
+    files = []
+    for d in ('Base', 'Model', 'Proofs', 'Props', 'Gen'):
+        for root, dirs, fs in os.walk(os.path.join(COQ, d)):
+            if os.path.basename(root) == 'cases':
+                continue
+            dirs[:] = [x for x in dirs if x != 'cases']
+            for f in sorted(fs):
+                if f.endswith('.v') and not f.startswith('.'):
+                    files.append(os.path.relpath(os.path.join(root, f), COQ))
+    text = '-Q . SKN\n-arg -w -arg -notation-overridden,-deprecated-hint-without-locality,-deprecated-instance-without-locality\n' + '\n'.join(sorted(files)) + '\n'
+    path = os.path.join(COQ, '_CoqProject')
+    if not os.path.exists(path) or open(path).read() != text:
+        open(path, 'w').write(text)
+        return True
+    return False
+
+
 def coq_make(targets, timeout=1800):
-    """Full .vo build of the given targets (and their dependencies) through coq_makefile."""
-    if not os.path.exists(os.path.join(COQ, 'Makefile')) or \
-            os.path.getmtime(os.path.join(COQ, 'Makefile')) < os.path.getmtime(os.path.join(COQ, '_CoqProject')):
-        rc, out = sh('coq_makefile -f _CoqProject -o Makefile', cwd=COQ, timeout=120)
-        if rc != 0:
-            return rc, out
-    return sh('timeout %d make -j16 %s 2>&1' % (timeout, ' '.join(targets)), cwd=COQ, timeout=timeout + 30)
+    """Full .vo build of the given targets (and their dependencies) through coq_makefile (serialised by a lock)."""
+    import fcntl
+    lock = open(os.path.join(COQ, '.verif.lock'), 'w')
+    fcntl.flock(lock, fcntl.LOCK_EX)
+    try:
+        changed = write_coqproject()
+        if changed or not os.path.exists(os.path.join(COQ, 'Makefile')):
+            rc, out = sh('coq_makefile -f _CoqProject -o Makefile', cwd=COQ, timeout=120)
+            if rc != 0:
+                return rc, out
+        return sh('timeout %d make -j16 %s 2>&1' % (timeout, ' '.join(targets)), cwd=COQ, timeout=timeout + 30)
+    finally:
+        fcntl.flock(lock, fcntl.LOCK_UN)
+        lock.close()
 
 
 def coq_flags():
